@@ -1,5 +1,6 @@
 import VlsModel.Lemmas.MonitorFn
 import VlsModel.Lemmas.MonitorView
+import VlsModel.Gen.FnMonitorView
 import VlsModel.Lemmas.FnGen
 /-
 C14 — the state-changing core of the monitor model proved equal to the function bodies that `translate/rs2lean.py`
@@ -330,8 +331,8 @@ theorem C14_fn_apply_backward (s : Monitor.State) (c : Change) (A R : List GOp) 
 /-! ### State: on_add_block_end / on_remove_block_end -/
 
 /-- the per-block decode state as `on_*_block_end` reads it: the detected changes and the hash of the block -/
-def toGenDS (bh : Nat) (cs : List Change) : Gen.FnMonitorC14.BlockDecodeState Nat Nat :=
-  { changes := cs.map toGenChange, block_hash := some bh }
+def toGenDS (bh : Nat) (cs : List Change) (t : Monitor.State := default) : Gen.FnMonitorC14.BlockDecodeState Nat Nat :=
+  { changes := cs.map toGenChange, block_hash := some bh, state := toGen t }
 
 /-- the `for change in decode_state.changes.drain(..)` loop = `Monitor.applyAll` -/
 theorem foldlM_changes (g : Monitor.State → Change → Option Delta)
@@ -383,15 +384,15 @@ theorem is_done_ok (g : GState) (h : g.height + 1 ≤ Rs.U32_MAX) : ∃ b, g.is_
   · exact ⟨_, rfl⟩
 
 /-- result of a block-end function: new state, the drained decode state, the pair `(adds, removes)` -/
-def outE (bh : Nat) (d : Delta) :
+def outE (bh : Nat) (t : Monitor.State) (d : Delta) :
     GState × Gen.FnMonitorC14.BlockDecodeState Nat Nat × (List GOp × List GOp) :=
-  (toGen d.1, toGenDS bh [], (d.2.1.map toGenOp, d.2.2.map toGenOp))
+  (toGen d.1, toGenDS bh [] t, (d.2.1.map toGenOp, d.2.2.map toGenOp))
 
 /-- **`State::on_add_block_end` = `Monitor.addEnd`** for heights below `u32::MAX - 1` (the code does `height += 1`
     and evaluates `height + 1` again inside `is_done`; the model has no `u32` overflow) -/
-theorem C14_fn_on_add_block_end (s : Monitor.State) (cs : List Change) (bh : Nat)
+theorem C14_fn_on_add_block_end (s t : Monitor.State) (cs : List Change) (bh : Nat)
     (hh : s.height + 2 ≤ Rs.U32_MAX) :
-    (toGen s).on_add_block_end bh (toGenDS bh cs) = ofOpt (outE bh) (addEnd s cs) := by
+    (toGen s).on_add_block_end bh (toGenDS bh cs t) = ofOpt (outE bh t) (addEnd s cs) := by
   unfold Gen.FnMonitorC14.State.on_add_block_end addEnd
   have h1 : s.height + 1 ≤ Rs.U32_MAX := by omega
   simp only [toGenDS, beq_self_eq_true, Rs.assert, if_true, Rs.pure_eq, Rs.bind_ok]
@@ -443,8 +444,8 @@ theorem C14_fn_on_add_block_end (s : Monitor.State) (cs : List Change) (bh : Nat
 
 /-- **`State::on_remove_block_end` = `Monitor.removeEnd`** (backward changes in reverse order, swept heights cleared,
     `height -= 1`) for a monitor above height 0 -/
-theorem C14_fn_on_remove_block_end (s : Monitor.State) (cs : List Change) (bh : Nat) (hp : 0 < s.height) :
-    (toGen s).on_remove_block_end bh (toGenDS bh cs) = ofOpt (outE bh) (removeEnd s cs) := by
+theorem C14_fn_on_remove_block_end (s t : Monitor.State) (cs : List Change) (bh : Nat) (hp : 0 < s.height) :
+    (toGen s).on_remove_block_end bh (toGenDS bh cs t) = ofOpt (outE bh t) (removeEnd s cs) := by
   unfold Gen.FnMonitorC14.State.on_remove_block_end removeEnd
   simp only [toGenDS, beq_self_eq_true, Rs.assert, if_true, Rs.pure_eq, Rs.bind_ok]
   simp only [C14_fn_is_closing_swept, C14_fn_is_our_output_swept, ← List.map_reverse]
@@ -504,6 +505,78 @@ theorem C14_fn_on_remove_block_end_height0 (s : Monitor.State) (cs : List Change
         else (if b1 = true then { s2 with closingSweptHeight := none } else s2)).height = 0 := by
       intro b1 b2; split <;> split <;> simp [hht, hz]
     rw [if_pos (this _ _)]
+
+/-- **`BlockDecodeState::add_change` = `Scratch.addChange`**: the change is appended to the block's change list and
+    applied at once to the temporary copy of the state (so that a close and its sweep in one block are seen); an
+    inapplicable change panics -/
+theorem C14_fn_add_change (d : Scratch) (bh : Nat) (c : Change) :
+    (toGenDS bh d.changes d.t).add_change (toGenChange c)
+      = ofOpt (fun d' : Scratch => toGenDS bh d'.changes d'.t) (d.addChange c) := by
+  unfold Gen.FnMonitorC14.BlockDecodeState.add_change Scratch.addChange
+  simp only [toGenDS, C14_fn_apply_forward]
+  cases h : applyForward d.t c with
+  | none => rfl
+  | some r =>
+    obtain ⟨t', a, rr⟩ := r
+    simp [outD, toGenDS]
+
+/-! ### The views: `ChainMonitor::{funding_depth, funding_double_spent_depth, closing_depth}`, `ChainMonitorBase::as_chain_state`
+
+Public accessors, translated in their own area (`Gen/FnMonitorView.lean`, targets
+`translate/fn_targets/MonitorView.b1315.json`; `ChainState` is the struct of `policy/validator.rs`).  `get_state()`
+(= `self.state.lock().expect("lock")`) is the identity on the protected value. -/
+
+/-- the five fields of `monitor::State` the accessors read -/
+def toGenV (s : Monitor.State) : Gen.FnMonitorView.State :=
+  { height := s.height, funding_height := s.fundingHeight, funding_double_spent_height := s.dsHeight,
+    mutual_closing_height := s.mutualHeight, unilateral_closing_height := s.uniHeight }
+
+theorem view_depth_of (s : Monitor.State) (o : Option Nat) (hh : s.height < Rs.U32_MAX) :
+    (toGenV s).depth_of o = .ok (s.depthOf o) := by
+  have h1 : s.height + 1 ≤ Rs.U32_MAX := hh
+  simp [Gen.FnMonitorView.State.depth_of, toGenV, Rs.uadd, h1, State.depthOf, Rs.usatSub]
+
+/-- `ChainMonitor::funding_depth` = `State.fundingDepth` -/
+theorem C14_fn_funding_depth (s : Monitor.State) (hh : s.height < Rs.U32_MAX) :
+    (Gen.FnMonitorView.ChainMonitor.mk (toGenV s)).funding_depth = .ok s.fundingDepth := by
+  unfold Gen.FnMonitorView.ChainMonitor.funding_depth Gen.FnMonitorView.ChainMonitor.get_state
+  simp only [view_depth_of s _ hh, Rs.bind_ok, Rs.pure_eq]
+  rfl
+
+/-- `ChainMonitor::funding_double_spent_depth` = `State.dsDepth` -/
+theorem C14_fn_ds_depth (s : Monitor.State) (hh : s.height < Rs.U32_MAX) :
+    (Gen.FnMonitorView.ChainMonitor.mk (toGenV s)).funding_double_spent_depth = .ok s.dsDepth := by
+  unfold Gen.FnMonitorView.ChainMonitor.funding_double_spent_depth Gen.FnMonitorView.ChainMonitor.get_state
+  simp only [view_depth_of s _ hh, Rs.bind_ok, Rs.pure_eq]
+  rfl
+
+/-- `ChainMonitor::closing_depth` = `State.closingDepth` (`unilateral.or(mutual)`) -/
+theorem C14_fn_closing_depth (s : Monitor.State) (hh : s.height < Rs.U32_MAX) :
+    (Gen.FnMonitorView.ChainMonitor.mk (toGenV s)).closing_depth = .ok s.closingDepth := by
+  unfold Gen.FnMonitorView.ChainMonitor.closing_depth Gen.FnMonitorView.ChainMonitor.get_state
+  simp only [view_depth_of s _ hh, Rs.bind_ok, Rs.pure_eq]
+  unfold State.closingDepth orOpt
+  simp only [toGenV]
+  cases s.uniHeight <;> rfl
+
+/-- **`ChainMonitorBase::as_chain_state` = `State.chainState`**: the same four numbers, and the code's plain `u32`
+    subtraction underflows (panic in an overflow-checked build, a wrapped depth of about 2^32 in a release build)
+    exactly where the model says `none` -/
+theorem C14_fn_as_chain_state (s : Monitor.State) (hh : s.height < Rs.U32_MAX) :
+    (Gen.FnMonitorView.ChainMonitorBase.mk (toGenV s)).as_chain_state =
+      (match s.chainState with
+       | some c => .ok { current_height := c.currentHeight, funding_depth := c.fundingDepth,
+                         funding_double_spent_depth := c.dsDepth, closing_depth := c.closingDepth }
+       | none => .error .overflow) := by
+  have h1 : s.height + 1 ≤ Rs.U32_MAX := hh
+  unfold Gen.FnMonitorView.ChainMonitorBase.as_chain_state Gen.FnMonitorView.ChainMonitorBase.get_state
+    State.chainState
+  simp only [toGenV]
+  have hu1 : Rs.uadd Rs.U32_MAX s.height 1 = .ok (s.height + 1) := by simp [Rs.uadd, h1]
+  cases hf : s.fundingHeight <;> cases hd : s.dsHeight <;> cases hm : s.mutualHeight <;> cases hu : s.uniHeight <;>
+    simp only [State.plainDepth, orOpt, hu1, Rs.bind_ok, Rs.pure_eq, Option.or, Option.getD_some, Option.getD_none,
+      Rs.usub] <;>
+    (repeat' split) <;> simp_all [Rs.overflow] <;> (try subst_vars) <;> (try exact ⟨rfl, rfl, rfl, rfl⟩)
 
 /-! Non-vacuity: both outcomes occur on concrete inputs. -/
 
